@@ -69,6 +69,12 @@ def qvec(rng, n, kind, r=2):
         step = int(rng.choice([1 << 32, 1 << 32, 1 << 16, 1 << 31, 1 << 53, 1 << 8]))
         pool = np.array([b, b + step, b - step, b + 2 * step, b + 1, b + 1 + step], dtype=np.int64)
         return pool[rng.integers(0, int(rng.integers(2, len(pool) + 1)), size=n)]
+    if kind == 'pm-boundary':
+        # wide-integer labels sitting exactly ON the boundary of a narrower type, with both signs, interleaved: +128 / -128, +32768 / -32768, +-2**31 --
+        # -128 fits into int8, +128 wraps to -128; a narrowed copy used for sorting or hashing merges the two charges
+        c = int(rng.choice([128, 128, 32768, 32768, 1 << 31]))
+        pool = np.array([c, -c, c - 1, -c + 1, 0, c, -c], dtype=np.int64)
+        return pool[rng.integers(0, int(rng.integers(2, len(pool) + 1)), size=n)]
     if kind == 'int-extremes':
         # labels at the limits of their integer type (largest / smallest representable value and their neighbours): q + 1, -q, q1 - q0 wrap around
         dt = [np.int8, np.int16, np.int32, np.int64][int(rng.integers(0, 4))]
@@ -917,7 +923,7 @@ def long_range_hamiltonian(rng, qd, L, cplx=True):
     return ptn.MPO.from_opgraph(qd, g, opmap)
 
 
-def add_twin_paths(rng, g, ntwins=None):
+def add_twin_paths(rng, g, ntwins=None, dead_ends=False):
     """
     Redundancy for the rewrite rules: for a few random paths n_0 -e_1-> n_1 -e_2-> ... -e_k-> n_k (k = 1..3, direction forwards or backwards) add TWIN nodes
     n_1', ..., n_{k-1}' (labels equal to the originals with probability 0.6, otherwise different) connected by edges with operator lists IDENTICAL to
@@ -946,6 +952,8 @@ def add_twin_paths(rng, g, ntwins=None):
         prev = start
         for j, (e, nxt) in enumerate(path):
             last = j == len(path) - 1
+            if last and dead_ends and direction == 1 and prev is not start and rng.random() < 0.5:
+                break                     # leave the last twin as a DEAD END (no outgoing edge): accepted by the library's consistency check, denotes nothing
             if last:
                 tgt = nxt
                 opics = list(e.opics) if (rng.random() < 0.5 or not e.opics) else [(e.opics[0][0], float(rng.choice([-1, .5, 2])))]
